@@ -83,6 +83,7 @@ type Exec struct {
 	PanicStack string
 	Blocked    []string // unfinished goroutines and what they wait for, at deadlock
 	Goroutines int
+	Mark       int // index of the first scheduling point after the harness called Mark (-1: not called)
 }
 
 // Choices returns the choice list of the execution (a replayable schedule).
@@ -481,7 +482,7 @@ func (s *S) me() *G {
 // in any goroutine, or at the point horizon; all other goroutines are then torn down
 // one at a time in abort mode (every shim operation exits the goroutine).
 func Run(prefix []int, body func()) *Exec {
-	s := &S{prefix: prefix, x: &Exec{}, closed: map[unsafe.Pointer]bool{}, mainDone: make(chan struct{}), maxPoints: MaxPoints}
+	s := &S{prefix: prefix, x: &Exec{Mark: -1}, closed: map[unsafe.Pointer]bool{}, mainDone: make(chan struct{}), maxPoints: MaxPoints}
 	if cur != nil {
 		panic("sched: nested Run")
 	}
@@ -769,6 +770,20 @@ func (o *Once) Do(f func()) {
 	if !o.done {
 		defer func() { o.done = true }()
 		f()
+	}
+}
+
+// Mark tells the explorer that the interesting part of the scenario starts here: an
+// Explorer with FromMark set branches only at scheduling points after the (first) call,
+// i.e. it enumerates every execution with at most Bound deviations AFTER the mark, the
+// set-up before it running in the default schedule.
+func Mark() {
+	s := cur
+	if s == nil || s.abort {
+		return
+	}
+	if s.x.Mark < 0 {
+		s.x.Mark = len(s.x.Points)
 	}
 }
 
